@@ -10,8 +10,8 @@ Open Scope nat_scope.
    keyword table regenerated from the source, with or without section title) and admonition sections that satisfies the
    decidable predicate wf_secs parses back to exactly what was written: same kinds in written order, same titles, item
    names, annotations (written, else the parent's), default values and descriptions (multi-line, blank lines, deeper
-   indentation preserved).  This is also the "modulo known gaps" statement: wf_secs = wf_secs_gen true true excludes exactly
-   the inputs of findings C13-F1 and C13-F2. *)
+   indentation preserved).  wf_secs carries no known-gap exclusion any more: findings C13-F1 and C13-F2 are repaired in the
+   source and the model follows the repaired code (non-greedy type group; annotation reset per Attributes item). *)
 Theorem C13_google_roundtrip : forall c ind secs, 1 <= ind -> wf_secs c secs = true ->
   parse_google default_opts c (render_google ind secs) = POk (expect_google c secs).
 Proof. exact google_roundtrip. Qed.
@@ -55,28 +55,19 @@ Theorem C13_signature_fallback_returns : forall c ind h t its k, (k = KReturns \
 Proof. exact google_signature_fallback_returns. Qed.
 Print Assumptions C13_signature_fallback_returns.
 
-(* Finding C13-F1: a typed Returns item whose description contains "):" is well-formed in every other respect and does
-   not round-trip (the type swallows the description up to the last "):"). *)
-Theorem C13_google_roundtrip_refuted_F1 :
-  wf_secs_gen false true no_parent f1_witness = true /\
+(* The witnesses of the repaired findings C13-F1 (a typed Returns item whose description contains "):") and C13-F2 (an
+   Attributes item without type after a typed one, unknown to the parent) are well-formed and parse back as written. *)
+Theorem C13_former_gaps_roundtrip :
+  (wf_secs no_parent f1_witness = true /\ wf_secs f2_ctx f2_witness = true) /\
   parse_google default_opts no_parent (render_google 4 f1_witness) =
     POk [GText (s_of "Summary.");
-         GItems KReturns None [mkItem (Some (s_of "x")) (Some (s_of "int): see f(a")) (s_of "b") None]] /\
-  parse_google default_opts no_parent (render_google 4 f1_witness) <> POk (expect_google no_parent f1_witness).
-Proof. exact google_roundtrip_refuted_F1. Qed.
-Print Assumptions C13_google_roundtrip_refuted_F1.
-
-(* Finding C13-F2: in an Attributes section an item without annotation that the parent does not know inherits the
-   annotation of the previous item. *)
-Theorem C13_google_roundtrip_refuted_F2 :
-  wf_secs_gen true false f2_ctx f2_witness = true /\
+         GItems KReturns None [mkItem (Some (s_of "x")) (Some (s_of "int")) (s_of "see f(a): b") None]] /\
   parse_google default_opts f2_ctx (render_google 4 f2_witness) =
     POk [GText (s_of "Summary.");
          GItems KAttrs None [mkItem (Some (s_of "a")) (Some (s_of "int")) (s_of "A.") None;
-                             mkItem (Some (s_of "b")) (Some (s_of "int")) (s_of "B.") None]] /\
-  parse_google default_opts f2_ctx (render_google 4 f2_witness) <> POk (expect_google f2_ctx f2_witness).
-Proof. exact google_roundtrip_refuted_F2. Qed.
-Print Assumptions C13_google_roundtrip_refuted_F2.
+                             mkItem (Some (s_of "b")) None (s_of "B.") None]].
+Proof. exact (conj former_gaps_wf google_former_gaps_roundtrip). Qed.
+Print Assumptions C13_former_gaps_roundtrip.
 
 (* Non-vacuity: a six-section document (aliases, title, blank lines, deeper indentation, stars, parent fallback for
    annotation, default and tuple elements, an admonition) satisfies wf_secs. *)
